@@ -1020,12 +1020,14 @@ def parse(
         return _parse_cached(
             txt, full_db_path, pymoca_version, cache_expiration_days, always_update_last_hit
         )
-    except sqlite3.Error as e:
+    except (sqlite3.Error, UnicodeDecodeError) as e:
         # The cache is only an optimization: whatever is wrong with the database
         # (locked for too long by another process, damaged or removed while in use,
         # ...), it should never make parsing fail. Make sure the database is checked
         # again on next use.
-        logger.warning(f"Model cache database error ({e}), parsing without cache")
+        # (UnicodeDecodeError: raised by the sqlite3 module instead of DatabaseError
+        # when the message about a damaged schema contains the damaged bytes.)
+        logger.warning(f"Model cache database error ({e!r}), parsing without cache")
         if hasattr(parse, "initialized_dbs"):
             parse.initialized_dbs.discard(full_db_path)
         return _parse(txt)
@@ -1056,7 +1058,7 @@ def _parse_cached(
                 # E.g. "database is locked" by another process or thread: the database
                 # is in use, not corrupt, and must not be deleted.
                 raise
-            except sqlite3.DatabaseError:
+            except (sqlite3.DatabaseError, UnicodeDecodeError):
                 conn.close()
 
                 logger.warning("Model cache database is corrupt, recreating...")
